@@ -58,6 +58,17 @@ def gen_tie_cases(ctx, scale):
                 if r.chance(1, 3): ops.append('R')
                 else: ops.append('r'); full = False
         cases.append('eh %s %s' % (c, ' '.join(ops)))
+    # direct runs of other GENERATED functions against the real code: pvExtraCheck of HashSet / TreeSet (normal and throwing
+    # functor, consistent and corrupted container; n >= 2 so that the check always calls a functor) and TreeSet::Swap
+    for i, c in enumerate(CATS):
+        for ht in ('h', 't'):
+            for n in (2, 3, 6):
+                for pos in sorted({0, n // 2, n - 1}):
+                    for throws in (0, 1):
+                        for corrupt in ((0, 1) if ht == 'h' else (0, 1, 2)):
+                            cases.append('ec %s %s %d %d %d %d' % (c, ht, throws, corrupt, n, pos))
+        for (n1, n2) in ((0, 1), (1, 0), (3, 5), (40, 2), (7, 70)):
+            cases.append('sw %s %d %d' % (c, n1, n2))
     # Add(pos, ExtractedItem&&) at every position of a bucket (key absent in the destination)
     for c in CATS:
         for kind in ('copy', 'alloc'):
@@ -598,14 +609,16 @@ def run(ctx):
     scale = 1 if ctx.quick() else 4
     ctx.trusted += ['extraction: ExtrOcamlBasic only (no Extract Constant), OCaml 4.13.1, zarith for decimal I/O only',
                     'g++ 12 -std=c++17; harness reaches private members via #define private public; harness/kit.h instrumentation',
-                    'ocaml/driver.ml: parsing, schedule construction ("the j-th step of kind X fails"), printing']
+                    'ocaml/driver.ml: parsing, schedule construction ("the j-th step of kind X fails"), printing; for the ec / sw direct runs the interpretation of the generated functions\' primitives',
+                    'translation chain of the 25 theorems about generated output (unverified): clang 14 JSON AST, tools/cxx2coq.py + gen_*.json configs, props/C10/c10_proto.py; '
+                    'run against the real code: Gen_Holder.*, Gen_ExtraCheckH/T.pvExtraCheck, Gen_TreeSwap.Swap; NOT run separately: Gen_StdInsert/U/N, Gen_MergeTo (tied via lemmas to hand models that are run), Gen_MergeProto (syntactic comparison with hand-typed trees / a 5-boolean recogniser)']
     ctx.assumptions += [
         'default MOMO_IS_NOTHROW_RELOCATABLE_APPENDIX: a type with a move constructor is relocated inside noexcept functions; '
         'its move constructor is assumed not to throw while relocating (a throw is std::terminate by momo policy) - category THM',
         'the four element categories NTM/SMH/THM/CPY (trait values checked by static_assert in c10_common.h); trivially relocatable items move by memcpy and are not modelled',
         'tree sources: the leaf/internal shape of each extraction is an oracle (theorems hold for every oracle); trace-level tie only for single-leaf trees',
         'destination internals (growth, rebalancing) are abstracted to one fallible find step and one fallible allocation step per insertion; their own safety is C04/C11',
-        'ExtraCheckMode::nothing in the harness containers (see NOTES.md: the debug-only extra check turns a throwing functor into an assertion failure)']
+        'ExtraCheckMode::nothing in most harness containers (before b307610 the debug-only extra check turned a throwing functor into an assertion failure; pvExtraCheck itself is generated and run directly, mode ec)']
     ctx.regen(['gen_holder.json', 'gen_holder_tree.json', 'gen_stdinsert.json', 'gen_stdinsert_u.json', 'gen_stdinsert_n.json', 'gen_mergeto.json', 'gen_treeswap.json', 'gen_extracheck_t.json', 'gen_extracheck_h.json'])
     regen_proto(ctx)
     ctx.prove()
